@@ -136,10 +136,12 @@ class VisibilityGraph(InteractingNetworks):
 
         return A
 
-    # FIXME: There is no option for missing values
     def visibility_relations_horizontal(self):
         """
-        Returns horizontal visibility between all nodes of self.timeseries
+        Returns horizontal visibility between all nodes of self.timeseries.
+
+        If :attr:`missing_values` is set, missing values block visibility and
+        remain isolated, as for the natural visibility graph.
         :rtype: 2D array of MASK
         """
         if self.silence_level <= 1:
@@ -151,6 +153,15 @@ class VisibilityGraph(InteractingNetworks):
         A = np.zeros((N, N), dtype=MASK)
 
         _visibility_relations_horizontal(x, N, A)
+
+        #  A missing value already blocks the view across it (comparisons
+        #  with NaN are false); remove the links of the missing values
+        #  themselves
+        if self.missing_values:
+            mv_indices = self.missing_value_indices
+            A[mv_indices, :] = 0
+            A[:, mv_indices] = 0
+
         return A
 
     #
